@@ -6,6 +6,7 @@ import (
 	"go/token"
 	"go/types"
 	"math"
+	"sort"
 	"strings"
 
 	"golang.org/x/tools/go/ssa"
@@ -3262,5 +3263,268 @@ func runDictOrderTotal(c *Ctx, rule string) {
 		c.OK(rule, "vng.sortDict less function", less.Pos(), "the dictionary is computed once")
 	default:
 		c.Fail(rule, "vng.sortDict less function", less.Pos(), "the dictionary is sorted more than once with a comparator that can tie for distinct entries (0. and -0.), starting from a randomly ordered map: the selectors and the dictionary stored in the metadata can be in different orders, and the tied values come back swapped")
+	}
+}
+
+// ---- C05-R1: Context.Reset forgets everything the context has learned.
+func runContextResetComplete(c *Ctx, rule string) {
+	p := c.P
+	c.Rule(rule, "Context.Reset resets every field of the type context that its methods write after construction (tables and caches alike): a cache that survives Reset hands out a type object that is no longer in the tables, so the same structure gets a second object and ID")
+	reset := p.Func("(*super.Context).Reset")
+	if reset == nil {
+		c.Undecided(rule, "(*super.Context).Reset", "anchor does not resolve")
+		return
+	}
+	writesOf := func(fn *ssa.Function) map[string]bool {
+		out := map[string]bool{}
+		for _, b := range fn.Blocks {
+			for _, in := range b.Instrs {
+				switch x := in.(type) {
+				case *ssa.Store:
+					if fa, ok := x.Addr.(*ssa.FieldAddr); ok && namedOf(fa.X.Type()) == "super.Context" {
+						out[fieldName(fa.X.Type(), fa.Field)] = true
+					}
+				case *ssa.MapUpdate:
+					if u, ok := x.Map.(*ssa.UnOp); ok {
+						if fa, ok := u.X.(*ssa.FieldAddr); ok && namedOf(fa.X.Type()) == "super.Context" {
+							out[fieldName(fa.X.Type(), fa.Field)] = true
+						}
+					}
+				case ssa.CallInstruction:
+					// atomic.Pointer.Store and the like on a field
+					cc := x.Common()
+					if len(cc.Args) > 0 {
+						if fa, ok := cc.Args[0].(*ssa.FieldAddr); ok && namedOf(fa.X.Type()) == "super.Context" {
+							nm := calleeName(cc)
+							if strings.Contains(nm, ").Store") || strings.Contains(nm, ").Swap") || strings.Contains(nm, ").CompareAndSwap") {
+								out[fieldName(fa.X.Type(), fa.Field)] = true
+							}
+						}
+					}
+				}
+			}
+		}
+		return out
+	}
+	written := map[string]string{}
+	for _, fn := range p.FuncsIn("") {
+		if fn.Signature.Recv() == nil || namedOf(fn.Signature.Recv().Type()) != "super.Context" || fn == reset {
+			continue
+		}
+		top := fn
+		for top.Parent() != nil {
+			top = top.Parent()
+		}
+		for f := range writesOf(fn) {
+			if f == "mu" {
+				continue
+			}
+			if _, ok := written[f]; !ok {
+				written[f] = fnName(top)
+			}
+		}
+	}
+	inReset := writesOf(reset)
+	if len(written) < 4 {
+		c.Undecided(rule, "(*super.Context).Reset", "fewer than 4 fields written by Context methods found")
+		return
+	}
+	var fields []string
+	for f := range written {
+		fields = append(fields, f)
+	}
+	sort.Strings(fields)
+	for _, f := range fields {
+		construct := "(*super.Context).Reset field " + f
+		if inReset[f] {
+			c.OK(rule, construct, reset.Pos(), "reset (written by "+written[f]+")")
+		} else {
+			c.Fail(rule, construct, reset.Pos(), "this field is written by "+written[f]+" but not by Reset: what it caches survives the reset although the tables it refers to are emptied, so a second, different type object is created for the same structure (types are no longer canonical within the context)")
+		}
+	}
+}
+
+// ---- C17-S3: a commit's snapshot cache file is only accepted with its end marker.
+func runCommitSnapshotMarker(c *Ctx, rule string) {
+	p := c.P
+	c.Rule(rule, "the snapshot cache of a commit is self-validating: Snapshot.serialize writes a Commit action as the last entry, and decodeSnapshot returns success only after it read that entry last (the cache is written with a plain Put, so a crash can leave it empty or cut short; an empty file otherwise decodes as an empty snapshot and the branch reads as empty)")
+	ser := p.Func("(*lake/commits.Snapshot).serialize")
+	dec := p.Func("lake/commits.decodeSnapshot")
+	if ser == nil || dec == nil {
+		c.Undecided(rule, "commits.Snapshot.serialize / decodeSnapshot", "anchors do not resolve")
+		return
+	}
+	isWrite := func(in ssa.Instruction) bool {
+		ci, ok := in.(ssa.CallInstruction)
+		return ok && calleeName(ci.Common()) == "(*zngbytes.Serializer).Write"
+	}
+	var marker ssa.Instruction
+	for _, ci := range allCalls(ser) {
+		if !isWrite(ci.(ssa.Instruction)) {
+			continue
+		}
+		if dependsOn(ci.Common().Args[1], func(v ssa.Value) bool {
+			a, ok := v.(*ssa.Alloc)
+			if !ok {
+				return false
+			}
+			pt, ok := a.Type().Underlying().(*types.Pointer)
+			return ok && namedOf(pt.Elem()) == "lake/commits.Commit"
+		}) {
+			marker = ci.(ssa.Instruction)
+		}
+	}
+	switch {
+	case marker == nil:
+		c.Fail(rule, "Snapshot.serialize writes the end marker", ser.Pos(), "no end marker is written: a snapshot file cut short (or left empty) by a crash cannot be told from a complete one")
+	case reachAvoiding(ser, marker, func(ssa.Instruction) bool { return false }, isWrite) != nil:
+		c.Fail(rule, "Snapshot.serialize writes the end marker", marker.Pos(), "entries can be written after the end marker")
+	default:
+		c.OK(rule, "Snapshot.serialize writes the end marker", marker.Pos(), "the Commit action is the last entry written")
+	}
+	okAll, any := true, false
+	for _, b := range dec.Blocks {
+		ret, ok := b.Instrs[len(b.Instrs)-1].(*ssa.Return)
+		if !ok || len(ret.Results) != 2 || !isNilConst(returnOperand(ret, 1)) {
+			continue
+		}
+		any = true
+		guarded := false
+		for _, gb := range dec.Blocks {
+			iff, ok := gb.Instrs[len(gb.Instrs)-1].(*ssa.If)
+			if !ok || !gb.Dominates(b) || gb == b {
+				continue
+			}
+			if dependsOnCtl(iff.Cond, func(v ssa.Value) bool {
+				ta, ok := v.(*ssa.TypeAssert)
+				return ok && short(ta.AssertedType.String()) == "*lake/commits.Commit"
+			}) {
+				guarded = true
+			}
+		}
+		if !guarded {
+			okAll = false
+		}
+	}
+	switch {
+	case !any:
+		c.Undecided(rule, "decodeSnapshot requires the end marker", "no success return found")
+	case okAll:
+		c.OK(rule, "decodeSnapshot requires the end marker", dec.Pos(), "success depends on having read the Commit entry")
+	default:
+		c.Fail(rule, "decodeSnapshot requires the end marker", dec.Pos(), "decodeSnapshot can succeed without having read the end marker: an empty or truncated cache file is taken for the commit's snapshot, so a branch whose tip's cache was torn by a crash reads as empty (or partially) although its commit objects are intact")
+	}
+}
+
+// ---- C10-X1: all runs of one external merge sort decode into one type context.
+//
+// Values read back from different spill files are compared with each other (heap order, "same key"
+// test).  Type identity and type IDs are per context, so the comparison is only meaningful if the
+// runs share one context: the one the MergeSort owns.
+func runSpillRunsShareContext(c *Ctx, rule string) {
+	p := c.P
+	c.Rule(rule, "every spill run of a MergeSort is opened with the MergeSort's own type context (a field of the receiver), never with a fresh one: values of different runs are compared with each other, and complex type IDs are only comparable within one context")
+	fn := p.Func("(*runtime/sam/op/spill.MergeSort).Spill")
+	if fn == nil {
+		c.Undecided(rule, "(*runtime/sam/op/spill.MergeSort).Spill", "anchor does not resolve")
+		return
+	}
+	n := 0
+	for _, ci := range allCalls(fn) {
+		if calleeName(ci.Common()) != "runtime/sam/op/spill.newPeeker" {
+			continue
+		}
+		for _, a := range ci.Common().Args {
+			if short(a.Type().String()) != "*super.Context" {
+				continue
+			}
+			n++
+			fromField := false
+			if u, ok := a.(*ssa.UnOp); ok {
+				if fa, ok := u.X.(*ssa.FieldAddr); ok && namedOf(fa.X.Type()) == "runtime/sam/op/spill.MergeSort" {
+					fromField = true
+				}
+			}
+			construct := "(*runtime/sam/op/spill.MergeSort).Spill opens a run"
+			if fromField {
+				c.OK(rule, construct, ci.Pos(), "with the MergeSort's context")
+			} else {
+				c.Fail(rule, construct, ci.Pos(), "the run is opened with a type context that is not the MergeSort's own: the same record or error type gets different IDs in different runs (and different types the same ID), so the merge order and the equal-key test of a spilled group-by no longer agree with the in-memory table — keys of complex types are merged or split once the table spills")
+			}
+		}
+	}
+	if n == 0 {
+		c.Undecided(rule, "(*runtime/sam/op/spill.MergeSort).Spill", "no run opened with a type context found")
+	}
+}
+
+// ---- C16-L1: the seek-range lookup looks at every entry of the index.
+func runSeekLookupScansAll(c *Ctx, rule string) {
+	p := c.P
+	c.Rule(rule, "LookupSeekRange returns its ranges only at the end of the seek index (or with an error): no successful return lies on the path of a pruned entry, so the surviving ranges of a disjunctive key predicate that lie after a pruned stretch are kept")
+	fn := p.Func("lake/data.LookupSeekRange")
+	if fn == nil {
+		c.Undecided(rule, "lake/data.LookupSeekRange", "anchor does not resolve")
+		return
+	}
+	var read *ssa.Call
+	for _, ci := range allCalls(fn) {
+		if calleeName(ci.Common()) == "(*zio/zngio.Reader).Read" {
+			if call, ok := ci.(*ssa.Call); ok && inCycle(fn, call) {
+				read = call
+			}
+		}
+	}
+	if read == nil {
+		c.Undecided(rule, "lake/data.LookupSeekRange", "the index read loop was not found")
+		return
+	}
+	// the value result of Read
+	var valEx *ssa.Extract
+	for _, r := range *read.Referrers() {
+		if ex, ok := r.(*ssa.Extract); ok && ex.Index == 0 {
+			valEx = ex
+		}
+	}
+	_ = valEx
+	var evalBlk *ssa.BasicBlock
+	for _, ci := range allCalls(fn) {
+		if cc := ci.Common(); cc.IsInvoke() && cc.Method.Name() == "Eval" {
+			evalBlk = ci.(ssa.Instruction).Block()
+		}
+	}
+	if evalBlk == nil {
+		c.Undecided(rule, "lake/data.LookupSeekRange", "the pruner evaluation was not found")
+		return
+	}
+	n, bad := 0, token.NoPos
+	for _, b := range fn.Blocks {
+		ret, ok := b.Instrs[len(b.Instrs)-1].(*ssa.Return)
+		if !ok || !read.Block().Dominates(b) {
+			continue
+		}
+		n++
+		if !evalBlk.Dominates(b) {
+			continue // the end-of-index / read-error exit, taken before any entry is judged
+		}
+		// after an entry was judged only a genuine error may be returned
+		switch e := returnOperand(ret, 1).(type) {
+		case *ssa.Const:
+			if e.Value == nil {
+				bad = ret.Pos()
+			}
+		case *ssa.Extract:
+			if e.Tuple == ssa.Value(read) {
+				bad = ret.Pos()
+			}
+		}
+		if bad != token.NoPos && !bad.IsValid() {
+			bad = fn.Pos()
+		}
+	}
+	if bad.IsValid() {
+		c.Fail(rule, "lake/data.LookupSeekRange returns before the end of the index", bad, "a successful return is taken after an entry was judged by the pruner, i.e. before the whole seek index was read: for a filter that keeps two separated stretches of one object (k == 3 or k == 300) every stretch after the first pruned entry is dropped, so the query returns fewer values than a full scan")
+	} else {
+		c.OK(rule, "lake/data.LookupSeekRange returns before the end of the index", fn.Pos(), sprint(n)+" returns inside the loop, all on the end-of-index / error exit")
 	}
 }
